@@ -106,6 +106,10 @@ func (sizesEngine) Exec(spec *Spec) *Result {
 		if err := conservation(info0); err != nil {
 			fail("size:conservation-fresh", "freshly formatted: "+err.Error())
 		}
+		if info0 != nil && info0.AllocFreeIno+uint64(info0.BitmapUsedIno) > uint64(sup.NInode()) {
+			fail("size:inode-table", fmt.Sprintf("the inode allocator offers %d free inodes (plus %d in use), but the inode table has room for %d: inodes beyond the table would live in the data region",
+				info0.AllocFreeIno, info0.BitmapUsedIno, sup.NInode()))
+		}
 		if info0.BitmapUsedBlks != info0.RootBlocks || info0.BitmapUsedIno != 2 {
 			fail("size:fresh-marking", fmt.Sprintf("freshly formatted: %d data blocks and %d inodes are marked in use (expected only the root directory's %d blocks and the two reserved inodes)",
 				info0.BitmapUsedBlks, info0.BitmapUsedIno, info0.RootBlocks))
